@@ -18,7 +18,7 @@ RULE = ("cases: every operator class (nestings to depth 2, batch shapes) x publi
 ASSUMPTIONS = ["torch's own accept / reject verdict on the dense operand is the specification", "a lazy result that raises on to_dense() counts as raising"]
 REQUIRED_STATS = ("judged",)
 
-OPS = ["matmul", "rmatmul", "solve", "inv_quad", "inv_quad_logdet", "add_tensor", "add_op", "sub_tensor", "mul_tensor", "mul_op",
+OPS = ["matmul", "rmatmul", "solve", "inv_quad", "inv_quad_logdet", "sqrt_inv_matmul", "add_tensor", "add_op", "sub_tensor", "mul_tensor", "mul_op",
        "add_diagonal", "cat", "expand", "getitem_int", "getitem_tensor", "getitem_list", "square_only", "matmul_op", "matmul_op"]
 
 
@@ -32,7 +32,7 @@ def gen_cases(ctx):
         op = rng.choice(OPS)
         n = rng.choice([2, 3, 4, 5, 6] if op == "matmul_op" else [2, 3, 4, 5])
         kind = rng.choice(["pd", "psd", "square", "rect", "sym"])
-        if op in ("solve", "inv_quad", "inv_quad_logdet", "add_diagonal"):
+        if op in ("solve", "inv_quad", "inv_quad_logdet", "add_diagonal", "sqrt_inv_matmul"):
             kind = "pd"
         if op == "square_only":
             kind = "rect"
@@ -41,7 +41,9 @@ def gen_cases(ctx):
         spec = zoo.gen_spec(rng, kind, n, m, batch, depth=rng.choice([1, 1, 2]), dtype=rng.choice(["f64", "f32"]), root=root)
         if spec is None:
             continue
-        yield dict(spec=spec, op=op, rseed=rng.randrange(1 << 30), debug=True if ctx.tier == "quick" else rng.random() < 0.8)
+        # route: solves / quadratic forms also above the Cholesky threshold (CG / Lanczos paths call _matmul without the public checks)
+        route = rng.choice([None, "cg"]) if op in ("solve", "inv_quad", "inv_quad_logdet", "sqrt_inv_matmul") else None
+        yield dict(spec=spec, op=op, rseed=rng.randrange(1 << 30), debug=True if ctx.tier == "quick" else rng.random() < 0.8, route=route)
 
 
 def _bad_operand(rng, op, dense, g, spec=None, opobj=None):
@@ -56,7 +58,7 @@ def _bad_operand(rng, op, dense, g, spec=None, opobj=None):
         return torch.randn(tuple(shape), generator=g, dtype=torch.float64).to(dt)
 
     out = []
-    if op in ("matmul", "solve", "inv_quad", "inv_quad_logdet"):
+    if op in ("matmul", "solve", "inv_quad", "inv_quad_logdet", "sqrt_inv_matmul"):
         rows = m if op == "matmul" else n
         shapes = [("inner+1", [rows + 1, 2]), ("inner=1", [1, 2]), ("inner+1_vec", [rows + 1]), ("batch_mismatch", [5] + [rows, 2] if not batch else [batch[-1] + 1, rows, 2]),
                   ("missing_dims_0d", [])]
@@ -71,6 +73,9 @@ def _bad_operand(rng, op, dense, g, spec=None, opobj=None):
                 out.append((bad + "/@", (lambda o, t=t: o @ t), (lambda t=t: torch.matmul(dense, t))))
             elif op == "solve":
                 out.append((bad, (lambda o, t=t: o.solve(t)), (lambda t=t: torch.linalg.solve(dense, t) if t.dim() != 1 or not batch else torch.linalg.solve(dense, t.unsqueeze(-1)))))
+            elif op == "sqrt_inv_matmul":
+                # A^{-1/2} R (contour-integral quadrature: MINRES / Lanczos call _matmul directly)
+                out.append((bad, (lambda o, t=t: o.sqrt_inv_matmul(t)), (lambda t=t: torch.linalg.solve(dense, t) if t.dim() != 1 or not batch else torch.linalg.solve(dense, t.unsqueeze(-1)))))
             elif op == "inv_quad":
                 out.append((bad, (lambda o, t=t: o.inv_quad(t)), (lambda t=t: (t * torch.linalg.solve(dense, t)).sum())))
             else:
@@ -186,7 +191,13 @@ def run_case(case, ctx):
     path = zoo.class_path(spec, 2)
     tags0 = common.spec_tags(spec)
     info = common.spec_info(spec) | ({"debug_off"} if not case["debug"] else set())
-    with settings.debug(case["debug"]):
+    import contextlib
+
+    st = contextlib.ExitStack()
+    if case.get("route") == "cg":
+        st.enter_context(settings.max_cholesky_size(0))
+        info = info | {"route:cg"}
+    with st, settings.debug(case["debug"]):
         for bad, libcall, densecall in _bad_operand(rng, op, b.dense, g, spec, b.op):
             _, exd = compare.attempt(densecall)
             if exd is None:
@@ -194,7 +205,7 @@ def run_case(case, ctx):
                 continue
             ctx.stat("judged")
             res, ex = compare.attempt(libcall, b.op)
-            key = f"{spec['cls']}|{op}|{bad}"
+            key = f"{spec['cls']}|{op}|{bad}" + ("|cg" if case.get("route") == "cg" else "")
             if ex is not None:
                 ctx.ok(op, key, True, sample=dict(spec=zoo.class_path(spec, 3), op=op, badness=bad, library=f"{ex.type}: {ex.msg[:60]}", torch=exd.msg[:60]))
                 continue
